@@ -16,17 +16,25 @@ Definition REGI (w : world) : Prop :=
 Definition rmono (w w' : world) : Prop :=
   (REGI w -> REGI w') /\
   (forall b, b < length (w_binds w) -> bkey w b = None -> bkey w' b = None) /\
-  length (w_binds w) <= length (w_binds w').
+  length (w_binds w) <= length (w_binds w') /\
+  (* evaluator and id of a binding never change while it lives *)
+  (forall b k, bkey w b = Some k -> bkey w' b = Some k \/ bkey w' b = None).
 
+Lemma bkey_lt0 w b k : bkey w b = Some k -> b < length (w_binds w).
+Proof. unfold bkey, get_bind. intros H. apply nth_error_Some. destruct (nth_error (w_binds w) b); [discriminate|discriminate H]. Qed.
 Lemma rmono_refl w : rmono w w.
-Proof. split; [auto|split; auto]. Qed.
+Proof. split; [auto|split; [auto|split; [auto|auto]]]. Qed.
 Lemma rmono_trans a b c : rmono a b -> rmono b c -> rmono a c.
-Proof. intros (A1 & A2 & A3) (B1 & B2 & B3). split; [auto|]. split; [|lia]. intros n Hn Hk. apply B2; [lia|]. apply A2; assumption. Qed.
+Proof.
+  intros (A1 & A2 & A3 & A4) (B1 & B2 & B3 & B4). split; [auto|]. split; [|split; [lia|]].
+  - intros n Hn Hk. apply B2; [lia|]. apply A2; assumption.
+  - intros n k Hk. destruct (A4 n k Hk) as [H|H]; [exact (B4 n k H)|]. right. apply B2; [|exact H]. pose proof (bkey_lt0 _ _ _ Hk). lia.
+Qed.
 
 Lemma rmono_keys w w' :
   w_evps w' = w_evps w -> (forall b, bkey w' b = bkey w b) -> length (w_binds w') = length (w_binds w) -> rmono w w'.
 Proof.
-  intros E K L. split; [|split; [intros b _ Hk; rewrite K; exact Hk|lia]].
+  intros E K L. split; [|split; [intros b _ Hk; rewrite K; exact Hk|split; [lia|intros b k Hk; left; rewrite K; exact Hk]]].
   intros H ep st rid b Hst Hi. rewrite E in Hst. rewrite K. eauto.
 Qed.
 Lemma rmono_eb w w' : w_evps w' = w_evps w -> w_binds w' = w_binds w -> rmono w w'.
@@ -98,7 +106,7 @@ Proof.
   { intros b'. unfold bkey, get_bind, put_bind; cbn [set_binds w_binds]. rewrite B1. destruct (Nat.eqb_spec b b') as [<-|Hne].
     - rewrite nth_upd_same by exact Hlt. reflexivity.
     - rewrite nth_upd_other by exact Hne. reflexivity. }
-  split; [|split].
+  split; [|split; [|split]].
   - intros H ep st rid b' Hst Hi. rewrite K. change (w_evps (put_bind w1 b dead)) with (w_evps w1) in Hst.
     (* the entry was there before *)
     assert (Hold : exists st0, nth_error (w_evps w) ep = Some st0 /\ In (rid, b') (ep_registry st0) /\ (ep = b_evp x -> rid <> b_regid x)).
@@ -111,6 +119,7 @@ Proof.
     destruct (Nat.eqb_spec b b') as [<-|Hne]; [|exact Hk]. exfalso. unfold bkey in Hk. rewrite Hb in Hk. inversion Hk; subst. exact (Hne0 eq_refl eq_refl).
   - intros b' _ Hk. rewrite K. destruct (Nat.eqb b b'); [reflexivity|exact Hk].
   - unfold put_bind; cbn [set_binds w_binds]. rewrite upd_length, B1. lia.
+  - intros b' k Hk. rewrite K. destruct (Nat.eqb b b'); [right; reflexivity|left; exact Hk].
 Qed.
 Section Reg.
   Variable fn : nat -> list Z -> option Z.
@@ -182,7 +191,7 @@ Section Reg.
         rewrite nth_error_app2 by exact Hge. destruct (b' - length (w_binds w)) as [|n] eqn:En; [lia|]. cbn. destruct n; cbn.
         + replace (nth_error (w_binds w) b') with (@None binding) by (symmetry; apply nth_error_None; lia). reflexivity.
         + replace (nth_error (w_binds w) b') with (@None binding) by (symmetry; apply nth_error_None; lia). reflexivity. }
-    split; [|split].
+    split; [|split; [|split]].
     - intros HR ep' st' rid b' Hst' Hi. rewrite K. cbn [set_binds set_evps w_evps] in Hst'. rewrite E1 in Hst'.
       destruct (Nat.eq_dec ep ep') as [<-|Hne].
       + rewrite nth_upd_same in Hst' by (apply nth_error_Some; congruence). inversion Hst'; subst st'. cbn [ep_registry] in Hi.
@@ -195,6 +204,7 @@ Section Reg.
         unfold bkey, get_bind in Hk. replace (nth_error (w_binds w) (length (w_binds w))) with (@None binding) in Hk by (symmetry; apply nth_error_None; lia). discriminate Hk.
     - intros b' Hlt Hk. rewrite K. destruct (Nat.eqb_spec b' (length (w_binds w))); [lia|exact Hk].
     - cbn [set_binds w_binds]. rewrite app_length, B1. lia.
+    - intros b' k Hk. left. rewrite K. destruct (Nat.eqb_spec b' (length (w_binds w))) as [->|]; [|exact Hk]. pose proof (bkey_lt0 _ _ _ Hk). lia.
   Qed.
 
   Definition goodG (R : world -> nat -> Z -> res) : Prop := forall w q v, rmono w (fst (R w q v)).
@@ -361,7 +371,7 @@ Section Reg.
         [exact (rmono_trans _ _ _ M1 (rmono_trans _ _ _ M2 (rmono_trans _ _ _ M3 M4)))|].
       eapply rmono_trans; [exact (rmono_trans _ _ _ M1 (rmono_trans _ _ _ M2 (rmono_trans _ _ _ M3 M4)))|].
       eapply rmono_trans; [|apply finish_move_rmono]. apply rmono_eb; reflexivity.
-    - destruct (lookup (w_bevs w) e); [apply rmono_refl|]. cbn [fst ok]. split; [|split; [intros b _ Hk; exact Hk|cbn; lia]].
+    - destruct (lookup (w_bevs w) e); [apply rmono_refl|]. cbn [fst ok]. split; [|split; [intros b _ Hk; exact Hk|split; [cbn; lia|intros b k Hk; left; exact Hk]]].
       intros HR ep st rid b Hst Hi. change (bkey w b = Some (ep, rid)). cbn [set_bevs set_evps w_evps] in Hst.
       destruct (Nat.lt_ge_cases ep (length (w_evps w))) as [Hlt|Hge]; [rewrite nth_error_app1 in Hst by exact Hlt; eauto|].
       rewrite nth_error_app2 in Hst by exact Hge. destruct (ep - length (w_evps w)) as [|n]; cbn in Hst; [inversion Hst; subst st; destruct Hi|destruct n; discriminate Hst].
@@ -400,6 +410,10 @@ Section Reg.
   (* a binding that is dead stays dead, through every later history *)
   Theorem dead_stays_dead fuel ops w b : b < length (w_binds w) -> bkey w b = None -> bkey (fold_left (step fn rtl fuel) ops w) b = None.
   Proof. intros Hlt Hk. exact (proj1 (proj2 (run_rmono fuel ops w)) b Hlt Hk). Qed.
+
+  (* ... and while it lives, a binding keeps its evaluator and its registration id *)
+  Theorem key_is_stable fuel ops w b k : bkey w b = Some k -> bkey (fold_left (step fn rtl fuel) ops w) b = Some k \/ bkey (fold_left (step fn rtl fuel) ops w) b = None.
+  Proof. intros Hk. exact (proj2 (proj2 (proj2 (run_rmono fuel ops w))) b k Hk). Qed.
 End Reg.
 
 (* ~Binding kills: afterwards the binding is dead (and, with REGI, in no registry) *)
@@ -407,7 +421,7 @@ Lemma destroy_binding_dead w b x : get_bind w b = Some x -> bkey (fst (destroy_b
 Proof.
   intros Hb. unfold destroy_binding. rewrite Hb.
   assert (Hlt : b < length (w_binds w)) by (unfold get_bind in Hb; apply nth_error_Some; destruct (nth_error (w_binds w) b); congruence).
-  match goal with |- context [unsubscribe_all ?W ?HS] => pose proof (unsubscribe_all_rmono HS W) as (_ & M2 & M3); set (W2 := W) in * end.
+  match goal with |- context [unsubscribe_all ?W ?HS] => pose proof (unsubscribe_all_rmono HS W) as (_ & M2 & M3 & _); set (W2 := W) in * end.
   assert (L2 : length (w_binds W2) = length (w_binds w)).
   { unfold W2, put_bind; cbn [set_binds w_binds]. rewrite upd_length. destruct (nth_error (w_evps w) (b_evp x)); reflexivity. }
   assert (K2 : bkey W2 b = None).
